@@ -68,6 +68,23 @@ func C11(t *testing.T, ch *choice.Source, opt harness.Options, env *Env) harness
 	if c.Spec.Timing {
 		c.Spec.Permute = ch.Bool(1, 2, "permute")
 	}
+	// C05 mode: the same workload under a host schedule chosen by the parent;
+	// the event order is the faithful one (simulated time is an observable)
+	c05 := env.Params["c05.sched"] != ""
+	if c05 {
+		c.Spec.Permute = false
+		if c.Spec.Timing && c.Spec.MagicCopy {
+			c.Spec.MagicCopy = false // (known finding of C11, not this property's business)
+		}
+		if env.Params["c05.sched"] != "canonical" {
+			var seed uint64
+			fmt.Sscanf(env.Params["c05.sched"], "%d", &seed)
+			c.Spec.Policy = gosched.Explore
+			c.Spec.SchedSeed = seed | 1
+			c.Spec.Burst = 1 + int(seed%97)
+		}
+	}
+	var obsTimes []float64
 	nb := 1 + ch.Intn(3, "buffers")
 	for i := 0; i < nb; i++ {
 		c.Buffers = append(c.Buffers, c11buf{Pages: 1 + ch.Intn(4, "pages"), Distribute: c.Spec.NumGPUs > 1 && ch.Bool(1, 2, "distribute")})
@@ -106,6 +123,7 @@ func C11(t *testing.T, ch *choice.Source, opt harness.Options, env *Env) harness
 		opDigest = (opDigest ^ digestString(s)) * 1099511628211
 	}
 	interesting := false
+	var dataDigest uint64
 
 	// the whole operation sequence is drawn before the simulation starts, so
 	// that the decision trace is [configuration, workload][schedule]
@@ -215,6 +233,7 @@ func C11(t *testing.T, ch *choice.Source, opt harness.Options, env *Env) harness
 				if problem != nil {
 					break
 				}
+				obsTimes = append(obsTimes, float64(p.Engine.CurrentTime()))
 				b := bufs[o.Buf]
 				off, length, queued := o.Off, o.Len, o.Queued
 				if b.pending {
@@ -317,6 +336,7 @@ func C11(t *testing.T, ch *choice.Source, opt harness.Options, env *Env) harness
 					everKernel = true
 				}
 			}
+			obsTimes = append(obsTimes, float64(p.Engine.CurrentTime()))
 			env.Phase("final")
 			for _, b := range bufs {
 				if b.pending {
@@ -330,6 +350,7 @@ func C11(t *testing.T, ch *choice.Source, opt harness.Options, env *Env) harness
 				}
 				out := make([]byte, b.size)
 				d.MemCopyD2H(ctx, out, b.ptr)
+				dataDigest = (dataDigest ^ digestString(string(out))) * 1099511628211
 				for i := range out {
 					if out[i] != b.shadow[i] {
 						rule, sig := "R2", "byte-outside-range-or-lost-write"
@@ -354,6 +375,11 @@ func C11(t *testing.T, ch *choice.Source, opt harness.Options, env *Env) harness
 		res.Nontrivial = interesting && (!c.Spec.Permute || sr.TieReorder > 0)
 		if opt.Verbose {
 			res.Sample = map[string]any{"config": c, "operations": opsLog}
+		}
+		if c05 {
+			res.Sample = map[string]any{"config": c, "operations": opsLog, "observables": map[string]any{
+				"final_time": sr.SimTime, "times_at_api_returns": obsTimes, "events": sr.Events, "data_digest": fmt.Sprint(dataDigest),
+			}, "switches": sr.Switches}
 		}
 		return res
 	}
